@@ -660,9 +660,12 @@ def c18(ctx):
                 continue
             binp = build_family(fam, variant, cp, lines)
             for nt in counts:
-                for rd in range(rounds):
-                    seq, ths, q, rc, err = vlib.exec_threaded(binp, lines, os.path.join(wd, "x"), nt)
-                    tag = {"op": "ThreadedRun", "family": fam, "variant": variant, "threads": nt}
+                for rd in range(rounds * 2):
+                    # two schedules: free-running sweeps, and lockstep phases in which neighbouring cases
+                    # (same operation / instantiation, different data) run at the very same time
+                    lock = rd % 2 == 1
+                    seq, ths, q, rc, err = vlib.exec_threaded(binp, lines, os.path.join(wd, "x"), nt, lockstep=lock)
+                    tag = {"op": "ThreadedRun", "family": fam, "variant": variant, "threads": nt, "lockstep": lock}
                     if rc != 0 or "ThreadSanitizer" in err:
                         ctx.violations.append((tag, {"rc": rc, "report": err[-3000:]}, "threaded run failed / data race reported"))
                         continue
@@ -677,6 +680,7 @@ def c18(ctx):
                         ctx.violations.append((tag, {"quiescent": q}, "use_count of a shared grid block differs from the number of live handles at the quiescent point"))
                     ctx.cov["evaluations"] += len(lines) * nt
                     ctx.cov.setdefault("threaded_runs", []).append({"family": fam, "variant": variant, "threads": nt, "cases": len(lines)})
+                    ctx.cov["threaded_runs"][-1]["lockstep"] = lock
                     if variant == "exact_thr" and rd == 0 and nt == counts[-1]:
                         # TLC judges the sequential log and the logs of two threads against the sequential contracts
                         for name, evs in (("seq", seq), ("t0", ths[0]), ("tlast", ths[-1])):
